@@ -13,8 +13,10 @@ from common import hexs
 import access as X
 
 
-def run_history(evs):
-    """evs: list of tuples. Returns (writes hex list, final seq)."""
+def run_history(evs, glue=False):
+    """evs: list of tuples. Returns (writes hex list, final seq).
+    glue: consecutive incoming frames (ACKs, data frames) arrive in ONE read - one data_received call with their bytes
+    concatenated - instead of one read each; what the numbering does must not depend on how the bytes are chunked."""
     from vloop import VLoop, Wire
     import zigpy_zboss.config as conf
     import zigpy_zboss.types as t
@@ -38,7 +40,16 @@ def run_history(evs):
         writes = []
         tasks = []
         outstanding = False
+        pend = bytearray()
+
+        def flush():
+            if pend:
+                proto.data_received(bytes(pend))
+                del pend[:]
+                loop.settle()
         for ev in evs:
+            if ev[0] not in ("a", "d"):
+                flush()
             if ev[0] == "s":
                 if outstanding:
                     loop.advance(U.ACK_TIMEOUT + 0.001)
@@ -52,14 +63,16 @@ def run_history(evs):
                 outstanding = True
                 loop.settle()
             elif ev[0] == "a":
-                proto.data_received(build_frame_bytes(None, b"", 1 | (ev[1] << 4)))
-                loop.settle()
+                pend += build_frame_bytes(None, b"", 1 | (ev[1] << 4))
+                if not glue:
+                    flush()
             elif ev[0] == "x":
                 loop.advance(U.ACK_TIMEOUT + 0.001)
                 outstanding = False
             elif ev[0] == "d":
-                proto.data_received(build_frame_bytes(0x00070000, b"\x09", 0xC0 | (ev[1] << 2)))
-                loop.settle()
+                pend += build_frame_bytes(0x00070000, b"\x09", 0xC0 | (ev[1] << 2))
+                if not glue:
+                    flush()
             elif ev[0] == "c":
                 loop.advance(U.ACK_TIMEOUT + 0.001)
                 outstanding = False
@@ -68,6 +81,7 @@ def run_history(evs):
                 w = Wire()
                 proto.connection_made(w)
                 loop.settle()
+        flush()
         loop.advance(U.ACK_TIMEOUT + 0.001)
         writes += [bytes(x).hex() for x in w.log]
         for tk in tasks:
@@ -124,8 +138,8 @@ def gen_history(rng, depth):
     return evs
 
 
-def check_one(chk, model_out, evs):
-    writes, seq = run_history(evs)
+def check_one(chk, model_out, evs, glue=False):
+    writes, seq = run_history(evs, glue)
     impl = ";".join(w if w else "-" for w in writes) + " // seq=%d" % seq
     ref_seqs, ref_final = reference(evs)
     # monitor on impl alone: data frames written carry the reference numbers, valid crc8 (spec decoder)
@@ -290,7 +304,7 @@ def run(chk):
     for _ in range(1500 if thorough else 250):
         hist.append(gen_history(rng, rng.randrange(6, 15)))
     mouts = chk.model.batch([model_line(e) for e in hist])
-    tie_bad = mon_bad = None
+    tie_bad = mon_bad = glue_tie = glue_mon = None
     for evs, mo in zip(hist, mouts):
         impl, mon = check_one(chk, mo, evs)
         nsend = sum(1 for e in evs if e[0] == "s")
@@ -311,6 +325,26 @@ def run(chk):
                         cur, changed = cand, True
                         break
             chk.violation(check_one(chk, None, cur)[1], {"history": ev_json(cur)}, key=None)
+        # the same history with consecutive incoming frames arriving in ONE read
+        if any(a[0] in ("a", "d") and b[0] in ("a", "d") for a, b in zip(evs, evs[1:])):
+            gimpl, gmon = check_one(chk, mo, evs, glue=True)
+            chk.count("glued_reads")
+            chk.evaluations += 1
+            if gimpl != mo and glue_tie is None:
+                glue_tie = (ev_json(evs), gimpl, mo)
+            if gmon is not None and glue_mon is None:
+                glue_mon = (ev_json(evs), gmon)
+                cur = list(evs)
+                changed = True
+                while changed:
+                    changed = False
+                    for i in range(len(cur)):
+                        cand = cur[:i] + cur[i + 1:]
+                        if cand and check_one(chk, None, cand, glue=True)[1] is not None:
+                            cur, changed = cand, True
+                            break
+                chk.violation("with consecutive incoming frames delivered in ONE read: " + check_one(chk, None, cur, glue=True)[1],
+                              {"history": ev_json(cur), "one_read_for_consecutive_incoming_frames": True}, key=None)
     # overlapping sends (a send issued while another is outstanding queues and is written later): the number stamped
     # must be the one current when the frame is WRITTEN
     ov = [[("q", 0x00010000, b"\x01"), ("q", 0x00020000, b"\x02"), ("a", 0), ("a", 1)],
@@ -426,6 +460,11 @@ def run(chk):
         chk.broken.append(BuildBroken("correspondence", "uart sequence numbering (overlapping sends) differs from the model", json.dumps(ov_tie)))
     chk.oblige("tieB:uart-send/ack/close-vs-model(%d histories)" % len(hist), tie_bad is None, json.dumps(tie_bad)[:300] if tie_bad else "")
     chk.oblige("monitor:sequence-rule+valid-crc8-on-impl-writes", mon_bad is None, json.dumps(mon_bad)[:300] if mon_bad else "")
+    chk.oblige("tieB:same-histories-with-consecutive-incoming-frames-in-one-read", glue_tie is None, json.dumps(glue_tie)[:300] if glue_tie else "")
+    chk.oblige("monitor:sequence-rule-does-not-depend-on-chunking", glue_mon is None, json.dumps(glue_mon)[:300] if glue_mon else "")
+    if glue_tie and not glue_mon and not chk.violations:
+        from common import BuildBroken
+        chk.broken.append(BuildBroken("correspondence", "numbering differs from the model when incoming frames share a read", json.dumps(glue_tie)))
     if tie_bad and not mon_bad:
         from common import BuildBroken
         chk.broken.append(BuildBroken("correspondence", "uart sequence numbering differs from the model", json.dumps(tie_bad)))
